@@ -55,6 +55,8 @@ def run(prop, spec, run_):
         q = tier == "quick"
         fam_cli.run_sniff(run_, 60 if q else 600)
         fam_cli.run_hist(run_, 10 if q else 120, thorough=not q)
+        import fam_dsk
+        fam_dsk.run_streams(run_, {"dsk.rt"}, {"dsk.rt": 6 if q else 100, "dsk.sweep": 1 if q else 2}, thorough=not q, corpus=corpus("dsk_histories"))
     elif prop == "C11":
         import fam_cli
         fam_cli.run_asm_matrix(run_, quick=(tier == "quick"), sub_every=6 if tier == "quick" else 3, props=("C11",))
